@@ -290,6 +290,10 @@ def run(R, env):
                     found_ids = True
                     res = closure_result(prog, a[1], params={2: ("id",)})
                     load = res[2][0] if res is not None and res[0] == "call" and res[1] == "std::result::Result::ok" else None
+                    if load is None and res is not None and res[0] == "call" and res[1] == "std::option::Option::flatten" and res[2] and res[2][0][0] == "call" and res[2][0][1] == "std::result::Result::ok" and res[2][0][2][0][0] == "call" and res[2][0][2][0][1] == "cw_storage_plus::Map::may_load":
+                        # BATCHES.may_load(storage, id).ok().flatten(): Some exactly for the ids that are stored and readable
+                        ml_ = res[2][0][2][0]
+                        load = ("call", "cw_storage_plus::Map::load", ml_[2]) + tuple(ml_[3:])
                     okl = load is not None and load[0] == "call" and load[1] == "cw_storage_plus::Map::load" and ns_of(prog, load[2][0]) == "batches" and load[2][2] == ("id",)
                     R.ob("C17.R2", "BatchesByIds:loads-each-id", okl, "per-id load = %s" % fmt(load or res or ("none",))[:100], loc=c.body.loc(bi), fn=c.body.key)
                     R.ob("C17.R2", "BatchesByIds:keeps-exactly-the-Ok-loads", okl, "the filter does not map Ok(b) -> Some(b), Err -> None", loc=c.body.loc(bi), fn=c.body.key)
